@@ -80,8 +80,10 @@ fn run<T: Coords>(case: &Value) -> Option<Vec<(&'static str, Value)>> {
             let sp = BezierSpline::new(&c);
             let t = gi(case, "kk") as f32 / 64.0;
             let ev = sp.eval(t);
+            let tan = sp.tangent(t);
             let endp = if t <= 0.0 { &c[0] } else { c.last().unwrap() };
-            vec![("ev", json!(ev.comps().iter().map(|x| s(*x)).collect::<Vec<_>>())), ("end", json!((ev == *endp) as u8))]
+            vec![("ev", json!(ev.comps().iter().map(|x| s(*x)).collect::<Vec<_>>())), ("end", json!((ev == *endp) as u8)),
+                 ("stan", json!(T::dcomps(&tan).iter().map(|x| s(*x)).collect::<Vec<_>>()))]
         }
         _ => {
             let c: Vec<T> = points(&case["C"], den);
@@ -93,7 +95,13 @@ fn run<T: Coords>(case: &Value) -> Option<Vec<(&'static str, Value)>> {
             let kind = gs(pol, "kind").to_string();
             let eps = gf(pol, "eps") as f32 / den;
             let pnum = gi(pol, "p") as u64;
+            // non-termination is data: the bisection is bounded by depth 10 + log2(len), so
+            // no call may ask the criterion more than segments * 2^(bound + 1) times
+            let budget = (c.len() as u64 + 1) << (12 + c.len().ilog2());
             let out = sp.approximate(|e: &T::Diff| {
+                if answers.borrow().len() as u64 > budget {
+                    panic!("approximate exceeded its depth bound: criterion asked more than {budget} times");
+                }
                 let ec = T::dcomps(e);
                 let ans = match kind.as_str() {
                     "seeded" => rng.borrow_mut().chance(pnum, 10),
@@ -152,7 +160,7 @@ pub fn exec(case: &Value) -> Value {
             o.insert("panic".into(), json!(0));
         }
         None => {
-            for k in ["ev", "fev", "tan", "answers", "errs", "out"] {
+            for k in ["ev", "fev", "tan", "stan", "answers", "errs", "out"] {
                 o.insert(k.into(), json!([]));
             }
             for k in ["end", "maxdep", "n", "first", "last"] {
